@@ -838,6 +838,19 @@ def check_valid_at(run: Run, prog: Program) -> None:  # noqa: C901
                 run.check(_nonzero(p, f"{buf}.count_valid()"), "C09.VALID", at.qual,
                           "if self._buffer.count_valid() == 0: raise IndexError",
                           "a read is possible on an empty buffer", node=at.node, file=at.file, path=p.describe())
+                # the raw storage is read only for a slot that is established not to lie in a gap: slots skipped by a jump
+                # ahead are recorded in the gap list but keep the value evicted from them
+                if kind == "index":
+                    cands = [f"{buf}.is_missing({buf}.get_timestamp({u(k)}))"]
+                else:
+                    cands = [f"{buf}.is_missing({u(k)})", f"{buf}.is_missing({buf}.normalize_timestamp({u(k)}))"]
+                no_gap = any(truth(p, c) is False for c in cands)
+                run.check(no_gap, "C09.VALID", at.qual, f"raw read of a covered slot only when it is not in a gap ({kind} key)",
+                          f"`{u(sub)[:70]}` reads the raw storage for a covered slot without the gap list having been consulted "
+                          "(is_missing(<that slot's timestamp>) false on the path): a slot skipped by a jump ahead (capacity 5, "
+                          "valid samples at slots 0..4, then slot 7) still holds the value evicted from it, so at(slot 5) returns "
+                          "slot 0's value where window() returns the fill value", node=at.node, file=at.file, path=p.describe(),
+                          instance=f"{at.qual}: read `{u(sub)[:60]}` only for a slot outside every gap")
     if forms != {"datetime", "index"}:
         raise AnalysisError(f"{at.qual}: expected a buffer read per key kind, found {sorted(forms)}")
     # a position found out of range is rejected with IndexError
